@@ -53,7 +53,8 @@ def _extra(spec):
 
 def _history(fe):
     nm = st.lists(st.sampled_from(ALPHA), min_size=1, max_size=2)
-    express = st.fixed_dictionaries({'op': st.just('express'), 'name': nm, 'cbp': st.booleans(), 'life': st.sampled_from([50, 4000])})
+    express = st.fixed_dictionaries({'op': st.just('express'), 'name': nm, 'cbp': st.booleans(), 'life': st.sampled_from([50, 4000]),
+                                     'digest': st.sampled_from([False, False, True])})
     data = st.fixed_dictionaries({'op': st.just('data'), 'of': st.integers(0, 5), 'ext': st.lists(st.sampled_from(ALPHA), max_size=1),
                                   'env': _envspec(), 'token': st.one_of(st.none(), st.binary(max_size=8).map(bytes.hex))})
     nack = st.fixed_dictionaries({'op': st.just('nack'), 'of': st.integers(0, 5), 'reason': st.sampled_from(REASONS), 'env': _envspec(),
@@ -64,7 +65,8 @@ def _history(fe):
                                       'token': st.one_of(st.none(), st.binary(max_size=40).map(bytes.hex),
                                                          st.binary(min_size=1, max_size=8).map(bytes.hex)),
                                       'env': _envspec()})
-    reply = st.fixed_dictionaries({'op': st.just('reply'), 'k': st.integers(0, 7)})
+    reply = st.fixed_dictionaries({'op': st.just('reply'), 'k': st.integers(0, 7),
+                                   'size': st.sampled_from([0, 0, 0, 300, 4000, 4096, 4200, 8800])})
     adv = st.fixed_dictionaries({'op': st.just('adv'), 'ms': st.sampled_from([0, 1, 10, 49, 51, 200])})
     ops = [express, data, data, nack, nack, frag, interest, interest, adv]
     if fe == 'v2':
@@ -115,8 +117,14 @@ def _run(fe, ops, full, r, flags, trace):
             k = op['op']
             if k == 'express':
                 name = [net.comp(x) for x in op['name']]
-                h = sim.express(name, lifetime=op['life'], can_be_prefix=op['cbp'], vlat=0.0, verdict=_verdict(fe, True))
-                ents.append({'name': name, 'h': h, 'cbp': op['cbp'], 'd': h.t0_ms + op['life'], 'nacked': None})
+                iname = name
+                if op.get('digest'):
+                    # Interest naming its Data by implicit digest (the Data this history sends for that name with no extension)
+                    import hashlib
+                    iname = name + [T.enc_tlv(1, hashlib.sha256(net.data_wire(name, content=b'c')).digest())]
+                    flags.add('implicit-digest')
+                h = sim.express(iname, lifetime=op['life'], can_be_prefix=op['cbp'], vlat=0.0, verdict=_verdict(fe, True))
+                ents.append({'name': name, 'iname': iname, 'h': h, 'cbp': op['cbp'], 'd': h.t0_ms + op['life'], 'nacked': None})
                 trace.append('E')
             elif k == 'data':
                 if not ents:
@@ -136,7 +144,7 @@ def _run(fe, ops, full, r, flags, trace):
                 now = sim.vl.now_ms()
                 # reference: which pending Interests does this Nack name?
                 for f in ents:
-                    if f['name'] == e['name'] and f['h'].t0_ms <= now <= f['d'] + 1:
+                    if f['iname'] == e['iname'] and f['h'].t0_ms <= now <= f['d'] + 1:
                         f.setdefault('nacks', []).append((op['reason'], now))
                         if f['h'].done_count == 0 and now < f['d'] - 1 and f['nacked'] is None:
                             f['nacked'] = (op['reason'], now)    # definitely pending: this Nack must finish it
@@ -177,7 +185,9 @@ def _run(fe, ops, full, r, flags, trace):
                 if not held:
                     continue
                 c = held[op['k'] % len(held)]
-                data = net.data_wire(c['name'], content=b'r%d' % c['n'])
+                data = net.data_wire(c['name'], content=b'r%d' % c['n'] + b'.' * op.get('size', 0))
+                if op.get('size', 0) >= 4096:
+                    flags.add('big-reply')
                 c['n'] += 1
                 before = len(sim.face.sent)
                 try:
@@ -257,7 +267,7 @@ def run_case(case):
         if a[part] != b[part]:
             r.bad(f'C10/{fe}/envelope-not-transparent/{part}', f'minimal: {str(a[part])[:250]}  wrapped: {str(b[part])[:250]}')
             break
-    nontrivial = bool(flags & {'multi-header', 'big-reason', 'out-of-order-token'})
+    nontrivial = bool(flags & {'multi-header', 'big-reason', 'out-of-order-token', 'implicit-digest', 'big-reply'})
     r.key = (fe, ''.join(trace)[:24], tuple(sorted(flags))) if nontrivial else None
     r.classes = (fe,) + tuple(sorted(flags))
     return r
